@@ -40,6 +40,38 @@ def _idx(n):
     return nf.nf(n, True)
 
 
+def break_value_facts(fn):
+    """facts about locals defined as `let x = loop { .. break v .. }`: a condition that holds at every `break v` of that loop
+    holds for x (with v replaced by x)"""
+    t = tree_of(fn)
+    out = []
+    for st in user_nodes(fn):
+        if st["k"] == "Let" and st["pat"]["k"] == "Bind" and "init" in st:
+            lp = nf.strip(st["init"])
+            if lp["k"] != "Loop":
+                continue
+            brs = [b for b in t.nodes if b["k"] == "Break" and b.get("target") == lp["id"] and "e" in b]
+            if not brs:
+                continue
+            common = None
+            for b in brs:
+                v = nf.nf(b["e"], True)
+                fs = set()
+                for it in nf.all_conditions(t, b, stop=lp):
+                    if it[0] == "truth":
+                        fs.add(("truth", re.sub(r"\b%s\b" % re.escape(v), st["pat"]["name"], it[1]), it[2]))
+                common = fs if common is None else (common & fs)
+            out.extend(sorted(common or []))
+    return out
+
+
+def site_facts(fn, node):
+    """conditions enclosing the node, facts established by earlier diverging ifs (early `continue`), and facts carried by
+    break-with-value loops"""
+    t = tree_of(fn)
+    return nf.all_conditions(t, node) + nf.early_facts(t, node) + break_value_facts(fn)
+
+
 def dens_rules(ctx, facts, prefix):
     fid = prefix + "densify"
     fn = facts.fn(fid)
@@ -52,7 +84,7 @@ def dens_rules(ctx, facts, prefix):
             continue
         n_inst += 1
         tt = _idx(idx[0])
-        conds = nf.all_conditions(t, w)
+        conds = site_facts(fn, w)
         if ("truth", "self.init[%s]" % tt, False) in conds:
             ctx.ok("DENS-target", fid, "%s[%s] written under !init[%s]" % (f, tt, tt), hirq.loc(w))
         else:
@@ -65,7 +97,7 @@ def dens_rules(ctx, facts, prefix):
         tt = _idx(idx[0])
         src = nf.strip(w["r"])
         kind, key, proj, sidx = slicer.base_place(src)
-        conds = nf.all_conditions(t, w)
+        conds = site_facts(fn, w)
         if not (src["k"] == "Index" and kind == "self" and key == f and len(sidx) == 1):
             ctx.violation("DENS-source", fid, "%s source" % f, hirq.loc(w), "`%s` does not copy %s from another bin of the same array" % (nf.nf(w)[:60], f))
             continue
@@ -100,7 +132,7 @@ def bookkeeping(ctx, facts, prefix):
             n += 1
             x = _idx(idx[0])
             blk = t.parent.get(id(w))
-            conds = nf.all_conditions(t, w)
+            conds = site_facts(fn, w)
             mate = [d for d in decs if t.parent.get(id(d)) is blk and d["k"] == "AssignOp" and d["op"] == "-=" and nf.nf(d["r"]) == "1"]
             if nf.nf(w["r"]) == "true" and mate and ("truth", "self.init[%s]" % x, False) in conds:
                 used.add(id(mate[0]))
